@@ -129,17 +129,19 @@ struct Array {
     }
 
     void operator+=(const Array &src) {
-        const SizeT n_size = (Size() + src.Size());
+        const SizeT src_size = src.Size(); // 'src' can be this array.
+        const SizeT size     = Size();
+        const SizeT n_size   = (size + src_size);
 
         if (n_size > Capacity()) {
             resize(n_size);
         }
 
-        index_ += src.Size();
+        index_ = n_size;
 
-        Type_T       *storage  = Storage();
+        Type_T       *storage  = (Storage() + size);
         const Type_T *src_item = src.First();
-        const Type_T *src_end  = (src_item + src.Size());
+        const Type_T *src_end  = (src_item + src_size);
 
         while (src_item < src_end) {
             Memory::Initialize(storage, *src_item);
